@@ -88,6 +88,27 @@ class AdjGen:
                 perm = self.rng.permutation(NAMES[k]).astype(np.int64)
                 self.features.add("indexed-in-place")
                 return ("sub", t, ((k, ("ten", perm, (k,), NAMES[k])),))
+        if r < 0.26 and len(names) >= 2:
+            # one substitution mixing a renaming with a slice / a fixed index / a permutation table on another name
+            k1, k2 = [str(x) for x in self.rng.choice(list(names), size=2, replace=False)]
+            self.counter += 1
+            cands = [n for n in NAMES if NAMES[n] == NAMES[k1] and n not in names]
+            new = self.choice(cands + ["z%d" % self.counter])
+            size = NAMES[k2]
+            c = self.rng.random()
+            if c < 0.4 and size >= 2:
+                start = int(self.rng.integers(0, size - 1))
+                stop = int(self.rng.integers(start + 1, size + 1))
+                v2 = ("slice", "s%d" % self.counter, start, stop, 1, size)
+            elif c < 0.7:
+                v2 = ("num", int(self.rng.integers(size)), size)
+            else:
+                v2 = ("ten", self.rng.permutation(size).astype(np.int64), ("q%d" % self.counter,), size)
+            pairs2 = [(k1, ("var", new, (NAMES[k1], ()))), (k2, v2)]
+            if self.rng.random() < 0.5:
+                pairs2.reverse()
+            self.features.add("renamed+other")
+            return ("sub", t, tuple(pairs2))
         if r < 0.3 and names:
             # renaming onto a fresh or another pool name of equal size (not one the leaf already has)
             k = self.choice(list(names))
